@@ -272,7 +272,7 @@ pub fn scenario_strategy(p: &GenParams) -> BoxedStrategy<PairScenario> {
                 let dt_ms = (1u64 << pow).saturating_sub(before_ms as u64);
                 ticks.insert(0, Tick { dt_us: dt_ms * 1000, acts: [idle.clone(), idle] });
             }
-            let mut sc = PairScenario { dirs: [d0, d1], keepalive_ms, seed, zero_ch, zero_mode, links: [l0, l1], ticks, tail };
+            let mut sc = PairScenario { dirs: [d0, d1], keepalive_ms, seed, zero_ch, zero_mode, links: [l0, l1], ticks, tail, premature_acks: Vec::new() };
             sc.normalize();
             sc
         })
